@@ -11,7 +11,9 @@ from . import common
 from .tgops import build_tg
 
 
-def prep_table(rep, rule, k, with_threshold, override):
+def prep_table(rep, rule, k, with_threshold, override, narrow=False):
+    """narrow=True: the interval tier spans only [tm, tM] inside the textgrid's [m, M] (a shorter tier in a longer
+    textgrid): blanks must still be filled up to the file's span."""
     idx = common.ctx()
     fn = idx.get("utilities.textgrid_io:_prepTgForSaving")
     todict = idx.get("data_classes.textgrid:_tgToDictionary")
@@ -31,6 +33,15 @@ def prep_table(rep, rule, k, with_threshold, override):
     if with_threshold:
         L = Lin.var("L")
         at.fact_lt(Lin.num(0), L)
+    tm = tM = None
+    if narrow:
+        tm, tM = at.var("tm"), at.var("tM")
+        at.rel("m", "<=", "tm")
+        at.rel("tM", "<=", "M")
+        at.rel("tm", "<=", "tM")
+        if ents:
+            at.rel("tm", "<=", "s1")
+            at.rel("e%d" % k, "<=", "tM")
     tr = TableRun(rep, rule, fn.short, fn.loc)
     pts = [(Lin.var("pt"), label_var("pl"))]
     at.fact_le(m, pts[0][0])
@@ -40,7 +51,7 @@ def prep_table(rep, rule, k, with_threshold, override):
         out = []
         for blank in (True, False):
             def code(I):
-                tg, objs = build_tg(I, [("interval", "T", ents), ("point", "P", pts)], m, M)
+                tg, objs = build_tg(I, [("interval", "T", ents, tm, tM) if narrow else ("interval", "T", ents), ("point", "P", pts)], m, M)
                 d = I.call_function(todict, [tg], {})
                 res = I.call_function(fn, [d, blank, lo, hi, L], {})
                 tiers = I.iterate(res.d["tiers"])
@@ -77,7 +88,7 @@ def prep_table(rep, rule, k, with_threshold, override):
         return out
 
     run_states(at, rows, tr)
-    tr.done("%d generic intervals, %s, override=%s" % (k, "threshold L>0" if with_threshold else "threshold None", override))
+    tr.done("%d generic intervals%s, %s, override=%s" % (k, " in a tier narrower than the textgrid" if narrow else "", "threshold L>0" if with_threshold else "threshold None", override))
 
 
 def run(rep, tier):
@@ -95,6 +106,9 @@ def run(rep, tier):
                 if k >= 3 and thr and ov != "none":
                     continue  # 3 intervals x threshold x overrides: the refinement tree gets too large; covered for k <= 2
                 prep_table(rep, "T10-T12-prep", k, thr, ov)
+    # a tier shorter than its textgrid (two tools, different lengths): the file's span is the textgrid's
+    for k in (0, 1):
+        prep_table(rep, "T10-T12-prep", k, False, "none", narrow=True)
     # getTextgridAsStr: prepared exactly once with the caller's options, every format serialises that object
     from .c02 import rule_one_dict
     rule_one_dict(rep, rule="G-guards")
